@@ -18,8 +18,8 @@ class UnitS(Unit):
                                 [('dep_reqwest.rs', ['reqwest-error', 'reqwest-client']),
                                  ('dep_yaserde.rs', ['io-traits', 'io-write-trait-opaque', 'io-traits-end', 'xml', 'yaserde-begin', 'yaserde-traits', 'yaserde-end'])])
         hc = HelpersContent(repo)
-        hc.emit_error(out, False, record=False)
-        hc.emit_restrictions(out, False, record=False)
+        hc.emit_error(out, False, record=False, imported='R')
+        hc.emit_restrictions(out, False, record=False, imported='R')
         hc.emit_helpers(out, probe)
         out.spec(TAIL)
         return out
